@@ -382,6 +382,23 @@ func baseTerms(t *T, out map[string]*T) {
 	out[t.String()] = t
 }
 
+// tableKeys adds the keys of every constant table looked up inside t.
+func tableKeys(t *T, out map[string]*big.Int) {
+	if t == nil {
+		return
+	}
+	if t.K == "index" && len(t.Args) == 2 {
+		if tab := tableOfTerm(t.Args[0]); tab != nil {
+			for _, v := range tab.keys() {
+				out[v.String()] = v
+			}
+		}
+	}
+	for _, a := range t.Args {
+		tableKeys(a, out)
+	}
+}
+
 // tableAsg: while scalarTable asks a leaf function to describe a path, the representative the row is
 // built for (leaves that read a constant lookup table depend on it).
 var tableAsg map[string]*big.Int
@@ -396,8 +413,7 @@ func collectConsts(t *T, out map[string]*big.Int) {
 	if t.K == "index" && len(t.Args) == 2 {
 		// the listed keys of a constant table are decision points like compared constants
 		if tab := tableOfTerm(t.Args[0]); tab != nil {
-			for k := range tab.vals {
-				v := big.NewInt(k)
+			for _, v := range tab.keys() {
 				out[v.String()] = v
 			}
 		}
@@ -465,6 +481,12 @@ func scalarTable(paths []*DPath, base string, typ types.Type, extraConsts []*big
 	for _, p := range paths {
 		for _, c := range p.Conds {
 			collectConsts(c.Cond, consts)
+		}
+		// a result read from a constant table: its keys are decision points as well
+		if p.Ret != nil {
+			for _, r := range p.Ret.Results {
+				tableKeys(p.Env.Term(r), consts)
+			}
 		}
 	}
 	for _, c := range extraConsts {
